@@ -111,6 +111,31 @@ def corpus():
     return [json.load(open(f)) for f in sorted(glob.glob(os.path.join(core.VERIF, 'corpus', ID, '*.json')))]
 
 
+GIT_FAULT_LAYOUTS = [([[4, 3, None, [17]], [5, 1, None, []]], 'hotfix/4.3.17'),
+                     ([[4, 3, 18, []], [5, 1, None, []]], 'stabilization/4.3.18'),
+                     ([[4, 3, None, []], [5, 1, None, []]], 'development/4.3')]
+
+
+def git_fault_histories(ctx):
+    """Scripted family: a pull request is merged into a destination branch (the robot's mirror cache is now one
+    job behind that branch), then the delete-branch job for that branch runs while ONE of its git commands fails
+    once - every position of the first commands (the clone sequence) and a sample of the later ones.  Whatever
+    fails, the job must either leave the branch alone or archive the tip it deletes."""
+    ks = list(range(0, 12)) + ([14, 18] if ctx.quick else list(range(12, 40)))
+    hs = []
+    for layout, branch in GIT_FAULT_LAYOUTS:
+        cfg = {'layout': layout, 'use_queue': False, 'skip_queue': False, 'no_octopus': False, 'peers': 0,
+               'leaders': 0, 'need_author': False, 'build_key': '', 'always_prs': True, 'always_branches': True,
+               'cmd_line_options': []}
+        for k in ks:
+            hs.append({'cfg': cfg, 'family': 'git_fault_delete', 'events': [
+                {'e': 'create_pr', 'src': 'bugfix/TEST-1', 'dst': branch, 'label': 'c1'},
+                {'e': 'job_pr', 'pr': 1},
+                {'e': 'job_api', 'kind': 'delete_branch', 'args': {'branch': branch},
+                 'fault': {'mode': 'git_fail', 'cmd_index': k}}]})
+    return hs
+
+
 def run(ctx):
     n = 64 if ctx.quick else 1000
     seeds = [ctx.seed * 100000 + i for i in range(n)]
@@ -125,6 +150,11 @@ def run(ctx):
         sysrun.run(ctx, [0], 0, MONITORS, replay_history=h)
         ctx.count('corpus_histories')
     res = sysrun.run(ctx, seeds, 16, MONITORS, fault_spec={'policy': 'third_party'})
+    hs = git_fault_histories(ctx)
+    ctx.rule += ('; plus %d scripted histories in which the delete-branch job of a branch that has just advanced runs '
+                 'while one of its git commands fails once (every position of the clone sequence)' % len(hs))
+    sysrun.run(ctx, [], 0, MONITORS, replay_history=hs)
+    ctx.count('git_fault_histories', len(hs))
     ctx.notes.append('third-party injections are counted in input_distribution under status:* of the same jobs')
 
 
